@@ -31,7 +31,7 @@ func init() {
 		ID:    "C10",
 		Level: "exploration",
 		Rule: "1Sec: every nanosecond offset of a 1-second interval (thorough: all 10^9, three interval positions; quick: every 997th plus +-2000 ns around 0, 0.5 s and 1 s); " +
-			"other timeframes: boundary grid {k*r+d} (k in {0,1,2,2^16,2^31-1,2^31,2^32-2,2^32-1}, d in -2..2 ns, r = tf/2^32) plus a strided sweep; each offset is encoded by the write path's " +
+			"other timeframes: boundary grid {k*r+d} (k in {0,1,2,2^16,2^31-1,2^31,2^32-2,2^32-1}, d in -2..2 ns, r = tf/2^32), every whole and half second of the interval -3..+3 ns, plus a strided sweep; each offset is encoded by the write path's " +
 			"encoder and decoded by the read path's decoder; consecutive enumerated offsets are also compared for order. every offset is a distinct non-trivial case",
 		Assume:   []string{"timezone UTC", "year 2020"},
 		QuickMax: 4 * time.Minute, ThorMax: 30 * time.Minute,
@@ -43,6 +43,10 @@ func c10Enum(c *mc.Ctx, yield func(c10Spec)) {
 		d := tfDur(tf).Nanoseconds()
 		for pos := 0; pos < 3; pos++ {
 			yield(c10Spec{TF: tf, Pos: pos, Kind: "grid"})
+			if tf != "1Sec" {
+				// every whole and half second of the interval +-3 ns: where the decoder's second carry is decided
+				yield(c10Spec{TF: tf, Pos: pos, Kind: "seconds"})
+			}
 			if tf == "1Sec" {
 				if c.Thorough() {
 					const chunks = 64
@@ -167,6 +171,16 @@ func c10Run(c *mc.Ctx, s c10Spec) {
 			n++
 		}
 		c.Sample(map[string]any{"tf": s.TF, "interval_start": start.Format(time.RFC3339), "grid_offsets": offs[:int(min64(6, int64(len(offs))))]})
+	} else if s.Kind == "seconds" {
+		for half := int64(0); half*500000000 < tf.Nanoseconds(); half++ {
+			for d := int64(-3); d <= 3; d++ {
+				if o := half*500000000 + d; o >= 0 && o < tf.Nanoseconds() {
+					eval(o)
+					n++
+				}
+			}
+		}
+		c.Sample(map[string]any{"tf": s.TF, "interval_start": start.Format(time.RFC3339), "seconds_grid": "every k*0.5 s of the interval, -3..+3 ns"})
 	} else {
 		if s.Lo > 0 {
 			// predecessor for the order check across the chunk boundary
